@@ -504,21 +504,9 @@ def gen_e2e_fields(rng, tier):
 
 
 def impl_e2e_fields(a):
-    """The real pipeline (parser, mappers, every handler of the container, generator
-    package normalisation, Filters) on a schema with one complexType / one enumeration."""
-    attrs = a["attrs"]
-    if attrs and attrs[0]["tag"] == "Enumeration":
-        spec = {"types": [], "elements": [], "enums": [{"name": "t", "values": [x["name"] for x in attrs]}], "tns": None}
-    else:
-        spec = {"types": [{"name": "t", "elements": [x["name"] for x in attrs if x["tag"] == "Element"],
-                           "attributes": [x["name"] for x in attrs if x["tag"] == "Attribute"], "abstract": False}],
-                "elements": [], "enums": [], "tns": None}
-
-    def run():
-        res = run_pipeline({"kind": "xsd", "spec": spec, "opts": {}})
-        return [r for r in res if r["qname"] == "t"][0]["fields"]
-
-    return _guard(run)
+    """The real generation run on a schema with one complexType / one enumeration; the member names
+    are read back from the module file that was written."""
+    return _guard(lambda: generated_members(adapt_pipeline("names.e2e_fields", a)))
 
 
 def classify_safe(a, out):
@@ -613,7 +601,7 @@ def own_case(case, s):
 # algorithm itself misbehaves on it in the same way. Never used by `check`.
 DOC_STOP_WORDS = {
     "", "Any", "Decimal", "Enum", "False", "Meta", "None", "Optional", "QName", "True", "Union", "and", "as", "assert",
-    "async", "bool", "break", "class", "continue", "def", "del", "dict", "elif", "else", "except", "field", "Field",
+    "async", "await", "bool", "break", "class", "continue", "def", "del", "dict", "elif", "else", "except", "field", "Field",
     "finally", "float", "for", "from", "global", "if", "import", "in", "int", "is", "lambda", "list", "nonlocal", "not",
     "object", "or", "pass", "raise", "return", "self", "str", "try", "type", "validate", "while", "with", "yield",
 }
@@ -764,8 +752,6 @@ def covered_ident(a, msg):
     if expected is None or not m or m.group(1) != expected:
         return None  # not what the documented algorithm produces: a new defect
     bad = [p for p in expected.split(".") if not importable_name(p)]
-    if bad and all(p == "await" for p in bad):
-        return "C07-await-not-reserved"
     if case == "originalCase" and bad and all(nonxid_word_chars(p) for p in bad):
         return "C07-original-case-non-xid"
     return None
@@ -832,9 +818,6 @@ def covered_fields(a, msg):
     if finals != ref_finals:
         return None  # the implementation no longer does what is documented: not a known finding
     if "both become field" not in msg:
-        bad = [n for n in finals if not importable_name(n)]
-        if bad and all(n == "await" for n in bad):
-            return "C07-await-not-reserved"
         return None
     groups = {}
     for i, x in enumerate(spec):
@@ -988,93 +971,205 @@ def build_xsd(spec):
     return "\n".join(out)
 
 
-def pipeline_config(opts):
-    c = GeneratorConfig()
-    c.output.structure_style = StructureStyle(opts.get("style", "filenames"))
-    c.output.compound_fields.enabled = bool(opts.get("compound"))
-    c.output.wrapper_fields = bool(opts.get("wrapper"))
-    c.output.unnest_classes = bool(opts.get("unnest"))
-    for k, attr in (("field_case", "field_name"), ("class_case", "class_name")):
-        if opts.get(k):
-            getattr(c.conventions, attr).case = NameCase(opts[k])
-    return c
+OPT_KEYS = {"style": "structure_style", "compound": "compound_fields", "unnest": "unnest_classes"}
 
 
-def run_pipeline(a):
-    """Real process_sources + analyze_classes + normalize_packages + Filters."""
-    from xsdata.codegen.transformer import ResourceTransformer
-    from xsdata.formats.dataclass.generator import DataclassGenerator
+def generate(a):
+    """The REAL generation run (harness/codegen_run.py): transformer.process -> analyzer ->
+    CodeWriter with the stand-in for the Jinja2 templates -> files on disk -> validate_imports ->
+    import of every generated module. Returns codegen_run.Generated (close() it)."""
+    import codegen_run as CG
 
-    config = pipeline_config(a.get("opts", {}))
-    d = tempfile.mkdtemp(prefix="c07-")
+    opts = a.get("opts", {})
+    kw = {}
+    for k, v in opts.items():
+        if k in ("field_case", "class_case", "wrapper"):
+            continue
+        kw[OPT_KEYS.get(k, k)] = v
+    if a["kind"] == "xsd":
+        sources = {"s.xsd": build_xsd(a["spec"])}
+    elif a["kind"] == "json":
+        sources = {"s.json": json.dumps(a["doc"], ensure_ascii=False)}
+    else:
+        sources = {"s.xml": a["doc"]}
+    orig = CG.make_config
+
+    def mk(package, **o):
+        cfg = orig(package, **o)
+        cfg.output.wrapper_fields = bool(opts.get("wrapper"))
+        for k, attr in (("field_case", "field_name"), ("class_case", "class_name")):
+            if opts.get(k):
+                getattr(cfg.conventions, attr).case = NameCase(opts[k])
+        return cfg
+
+    CG.make_config = mk
     try:
-        if a["kind"] == "xsd":
-            fn, content = "s.xsd", build_xsd(a["spec"])
-        elif a["kind"] == "json":
-            fn, content = "s.json", json.dumps(a["doc"], ensure_ascii=False)
-        else:
-            fn, content = "s.xml", a["doc"]
-        p = os.path.join(d, fn)
-        with open(p, "w", encoding="utf-8") as fh:
-            fh.write(content)
-        t = ResourceTransformer(config=config)
-        t.process_sources(["file://" + p])
-        classes = t.analyze_classes(t.classes)
-        gen = DataclassGenerator(config)
-        gen.normalize_packages(classes)
-        f = gen.filters
-        res = []
-
-        def walk(c, path):
-            cn = f.class_name(c.name)
-            if c.is_enumeration:
-                fields = [f.constant_name(x.name, c.name) for x in c.attrs]
-            else:
-                fields = [f.field_name(x.name, c.name) for x in c.attrs]
-            res.append({"path": path, "qname": c.qname, "module": f"{c.package}.{c.module}", "cls": cn,
-                        "fields": fields, "src": [x.local_name for x in c.attrs], "enum": c.is_enumeration,
-                        "inner": [f.class_name(i.name) for i in c.inner]})
-            for i in c.inner:
-                walk(i, path + [cn])
-
-        for c in classes:
-            walk(c, [])
-        return res
+        return CG.run_pipeline(sources, **kw)
     finally:
-        shutil.rmtree(d, ignore_errors=True)
+        CG.make_config = orig
+
+
+def _meta_name(node):
+    for st in node.body:
+        if isinstance(st, ast.ClassDef) and st.name == "Meta":
+            for x in st.body:
+                if isinstance(x, ast.Assign) and getattr(x.targets[0], "id", None) == "name" and isinstance(x.value, ast.Constant):
+                    return x.value.value
+    return None
+
+
+def _field_local_name(st):
+    """the XML name of a generated field: metadata["name"] when present, else the field name"""
+    v = st.value
+    if isinstance(v, ast.Call):
+        for kwd in v.keywords:
+            if kwd.arg == "metadata" and isinstance(kwd.value, ast.Dict):
+                for k, val in zip(kwd.value.keys, kwd.value.values):
+                    if isinstance(k, ast.Constant) and k.value == "name" and isinstance(val, ast.Constant):
+                        return val.value
+    return st.target.id
+
+
+def scan_class(node):
+    is_enum = any(getattr(b, "id", None) == "Enum" for b in node.bases)
+    members, inner = [], []
+    for st in node.body:
+        if isinstance(st, ast.AnnAssign) and isinstance(st.target, ast.Name):
+            members.append((st.target.id, _field_local_name(st)))
+        elif is_enum and isinstance(st, ast.Assign) and isinstance(st.targets[0], ast.Name):
+            val = st.value.value if isinstance(st.value, ast.Constant) else ast.unparse(st.value)
+            members.append((st.targets[0].id, val if isinstance(val, str) else repr(val)))
+        elif isinstance(st, ast.ClassDef) and st.name != "Meta":
+            inner.append(st)
+    return {"name": node.name, "local": _meta_name(node) or node.name, "enum": is_enum, "members": members, "inner": inner}
+
+
+def scan_sources(srcs, opts):
+    """What the files that were really written contain: syntax, duplicate members / inner classes /
+    module-level classes. Returns a failure message or None."""
+    for rel, text_ in sorted(srcs.items()):
+        try:
+            tree = ast.parse(text_)
+        except SyntaxError as e:
+            return f"generated module {rel} is not valid Python: SyntaxError: {e.msg}: {(e.text or '').strip()[:60]!r}"
+        if rel.endswith("__init__.py"):
+            continue
+        top = {}
+
+        def walk(node):
+            info = scan_class(node)
+            names = [m[0] for m in info["members"]]
+            dup = [n for n in dict.fromkeys(names) if names.count(n) > 1]
+            if dup:
+                srcs_ = [loc for n, loc in info["members"] if n == dup[0]]
+                conv = "screamingSnakeCase" if info["enum"] else opts.get("field_case", "snakeCase")
+                return (f"class {info['name']} of {[m[1] for m in info['members']]!r}: members {srcs_!r} "
+                        f"all become {dup[0]!r} ({conv})")
+            inames = [i.name for i in info["inner"]]
+            if len(set(inames)) != len(inames):
+                return f"class {info['name']}: duplicate inner class names {inames!r}"
+            for i in info["inner"]:
+                m = walk(i)
+                if m:
+                    return m
+            return None
+
+        for node in tree.body:
+            if isinstance(node, ast.ClassDef):
+                loc = _meta_name(node) or node.name
+                if node.name in top:
+                    return f"module {rel}: classes {top[node.name]!r} and {loc!r} are both named {node.name!r}"
+                top[node.name] = loc
+                m = walk(node)
+                if m:
+                    return m
+    return None
+
+
+def bind_and_instantiate(g):
+    """every generated class: binding metadata + an instance"""
+    import dataclasses
+    import enum
+
+    from xsdata.formats.dataclass.context import XmlContext
+
+    ctx = XmlContext()
+    seen = set()
+
+    def visit(cls):
+        if id(cls) in seen:
+            return None
+        seen.add(id(cls))
+        if issubclass(cls, enum.Enum):
+            try:
+                list(cls)
+            except Exception as e:  # noqa: BLE001
+                return f"enum {cls.__qualname__} cannot be listed: {type(e).__name__}: {e}"
+            return None
+        try:
+            ctx.build_recursive(cls)
+        except Exception as e:  # noqa: BLE001
+            return f"class {cls.__qualname__}: XmlContext.build_recursive raised {type(e).__name__}: {str(e)[:100]}"
+        try:
+            kwargs = {f.name: None for f in dataclasses.fields(cls)
+                      if f.init and f.default is dataclasses.MISSING and f.default_factory is dataclasses.MISSING}
+            cls(**kwargs)
+        except Exception as e:  # noqa: BLE001
+            return f"class {cls.__qualname__} cannot be instantiated: {type(e).__name__}: {str(e)[:100]}"
+        for v in vars(cls).values():
+            if isinstance(v, type) and v.__name__ != "Meta" and (dataclasses.is_dataclass(v) or issubclass(v, enum.Enum)):
+                m = visit(v)
+                if m:
+                    return m
+        return None
+
+    for mname, mod in sorted(g.modules.items()):
+        for v in list(vars(mod).values()):
+            if isinstance(v, type) and getattr(v, "__module__", None) == mname and (
+                dataclasses.is_dataclass(v) or issubclass(v, enum.Enum)
+            ):
+                m = visit(v)
+                if m:
+                    return m
+    return None
 
 
 def oracle_pipeline(a):
+    """End to end on the real generator: generation ends (only CodegenError may escape), every file
+    written is valid Python without duplicate members / classes, every module imports, every class
+    yields binding metadata and an instance."""
+    g = generate(a)
     try:
-        res = run_pipeline(a)
-    except CodegenError:
-        return None  # the generator's own error type
-    except Exception as e:  # noqa: BLE001
-        return f"generation raised {type(e).__name__}: {str(e)[:80]} (not CodegenError)"
-    by_module = {}
-    opts = a.get("opts", {})
-    for r in res:
-        for part in r["module"].split("."):
-            if part and not importable_name(part):
-                return f"module path {r['module']!r}: {part!r} is not an importable name"
-        if not importable_name(r["cls"]):
-            return f"class {r['qname']!r} is named {r['cls']!r}, not an importable name"
-        for src, n in zip(r["src"], r["fields"]):
-            if not importable_name(n):
-                return f"class {r['cls']}: member {src!r} is named {n!r}, not an importable name"
-        dup = [n for n in set(r["fields"]) if r["fields"].count(n) > 1]
-        if dup:
-            srcs = [s for s, n in zip(r["src"], r["fields"]) if n == dup[0]]
-            conv = opts.get("field_case", "snakeCase") if not r["enum"] else "screamingSnakeCase"
-            return f"class {r['cls']} of {r['src']!r}: members {srcs!r} all become {dup[0]!r} ({conv})"
-        if len(set(r["inner"])) != len(r["inner"]):
-            return f"class {r['cls']}: duplicate inner class names {r['inner']!r}"
-        if not r["path"]:
-            k = (r["module"], r["cls"])
-            if k in by_module:
-                return f"module {r['module']}: classes {by_module[k]!r} and {r['qname']!r} are both named {r['cls']!r}"
-            by_module[k] = r["qname"]
-    return None
+        opts = a.get("opts", {})
+        msg = scan_sources(g.sources(), opts)
+        if msg:
+            return msg
+        if g.error is not None:
+            if isinstance(g.error, CodegenError):
+                return None  # the generator's own error type
+            if isinstance(g.error, (KeyboardInterrupt, SystemExit)):
+                raise g.error
+            return f"generation raised {type(g.error).__name__}: {str(g.error)[:80]} (not CodegenError)"
+        return bind_and_instantiate(g)
+    finally:
+        g.close()
+
+
+def generated_members(a, class_local="t"):
+    """python member names, in source order (duplicates kept), of the generated class whose XML
+    name is `class_local` — read from the files the real writer produced"""
+    g = generate(a)
+    try:
+        srcs = g.sources()
+        for rel, text_ in sorted(srcs.items()):
+            if rel.endswith("__init__.py"):
+                continue
+            for node in ast.parse(text_).body:
+                if isinstance(node, ast.ClassDef) and class_local in (_meta_name(node), node.name.lower()):
+                    return [m[0] for m in scan_class(node)["members"]]
+        raise RuntimeError(f"class {class_local!r} not generated: {g.error!r}")
+    finally:
+        g.close()
 
 
 def _all_names(a):
@@ -1101,7 +1196,8 @@ def _all_names(a):
 
         w(a["doc"])
         return out
-    return re.findall(r"<([^\s/>!?][^\s/>]*)", a["doc"])
+    doc = a["doc"]
+    return re.findall(r"<([^\s/>!?][^\s/>]*)", doc) + re.findall(r"\s([^\s=<>\"']+)=", doc)
 
 
 def covered_pipeline(a, msg):
@@ -1114,10 +1210,11 @@ def covered_pipeline(a, msg):
                 return "C07-unnamed-char-valueerror"
     if "raised IndexError" in msg and a["kind"] == "json" and "" in names:
         return "C07-json-empty-key-indexerror"
-    if "'await'" in msg and "not an importable name" in msg and any(own_slug(n) == "await" for n in names):
-        return "C07-await-not-reserved"
-    if "not an importable name" in msg and a.get("opts", {}).get("field_case") == "originalCase" or a.get("opts", {}).get("class_case") == "originalCase":
-        if any(nonxid_word_chars(n) for n in names):
+    if "is not valid Python: SyntaxError: invalid character" in msg and "originalCase" in (
+        a.get("opts", {}).get("field_case"), a.get("opts", {}).get("class_case")
+    ):
+        bad = [c for n in names for c in nonxid_word_chars(n)]
+        if any(c in msg for c in bad):
             return "C07-original-case-non-xid"
     m = re.search(r"of (\[.*\]): members (\[.*\]) all become '([^']*)' \((\w+)\)", msg)
     if m:
@@ -1136,13 +1233,19 @@ def covered_pipeline(a, msg):
             # different slugs, and the documented safe_name maps them to the same name
             return "C07-safe-prefix-collision"
         return None
-    m = re.search(r"classes '([^']*)' and '([^']*)' are both named '([^']*)'", msg)
+    m = re.search(r"classes ('(?:[^'\\]|\\.)*') and ('(?:[^'\\]|\\.)*') are both named ('(?:[^'\\]|\\.)*')", msg)
     if m:
-        q1, q2, final = m.groups()
-        n1, n2 = q1.split("}")[-1], q2.split("}")[-1]
+        q1, q2, final = (ast.literal_eval(x) for x in m.groups())
         ccase = a.get("opts", {}).get("class_case", "pascalCase")
-        if own_slug(n1) != own_slug(n2) and ref_safe_name(n1, "type", ccase) == ref_safe_name(n2, "type", ccase) == final:
-            return "C07-safe-prefix-collision"
+        # enumerations carry no Meta.name, so the source names are looked up in the input
+        # (a class may first have received a numeric suffix from RenameDuplicateClasses)
+        variants = [(n, n) for n in names] + [(f"{n}_{k}", n) for n in names for k in range(1, 10)]
+        cands = {(v, base) for v, base in variants if ref_safe_name(v, "type", ccase) == final}
+        for x, bx in cands:
+            for y, by in cands:
+                if own_slug(x) != own_slug(y) and {q1, q2} <= {bx, by, final}:
+                    # different slugs, and the documented safe_name maps both to the same class name
+                    return "C07-safe-prefix-collision"
     return None
 
 
@@ -1166,7 +1269,27 @@ def gen_pipeline(rng, tier):
     yield {"kind": "json", "doc": {"a⁰": 1}, "opts": {"field_case": "originalCase"}}
     yield {"kind": "xml", "doc": "<r><\u2fe0>1</\u2fe0></r>", "opts": {}}
     yield {"kind": "xml", "doc": "<r><a x='1'>1</a><a>2</a><A/><class/><_/></r>", "opts": {}}
-    n = 120 if tier == "quick" else 3000
+    # every hand-picked source under a matrix of output options
+    hand = [
+        xsd([ty("t", ["a", "A", "a_"], ["a"]), ty("T2", ["class", "None", "import"], ["def", "self"])], [{"name": "r", "type": "t"}],
+            [{"name": "e", "values": ["a", "A", "-1", "1.0", "class", "None"]}], tns="http://www.example.com/class/1"),
+        xsd([ty("a"), ty("A"), ty("class", ["a-b", "a.b", "aB"], ["AB", "type"])], [{"name": "a", "type": "A"}, {"name": "list", "type": "class"}]),
+        xsd([ty("Meta", ["Meta", "value", "Value"], ["QName"]), ty("str", ["str", "int"], [])], [{"name": "field", "type": "Meta"}], tns="urn:x"),
+        {"kind": "json", "doc": {"a b": 1, "a-b": 2, "aB": 3, "AB": 4, "class": {"None": 1, "await": [1, 2], "x": {"y": [{"z": 1}]}}}},
+        {"kind": "json", "doc": [{"é": 1, "名": "x", "_": 2.5, "-": True, "1": None, "2x": [1.5]}]},
+        {"kind": "xml", "doc": "<r><a x='1'>1</a><a>2</a><A/><class/><_/><a-b y='2'><c/><c/></a-b></r>"},
+        {"kind": "xml", "doc": "<None xmlns='urn:a' xmlns:b='urn:b'><b:None b:import='1'>x</b:None><type>1</type><type>2</type></None>"},
+    ]
+    matrix = [{}] + [{"style": st} for st in STYLES] + [
+        {"compound": True}, {"unnest": True}, {"frozen": True, "slots": True}, {"slots": True, "style": "single-package"},
+        {"relative_imports": True, "style": "namespaces"}, {"relative_imports": True, "style": "clusters"},
+        {"generic_collections": True}, {"wrapper": True, "compound": True}, {"compound": True, "unnest": True, "frozen": True},
+        {"field_case": "camelCase", "class_case": "mixedSnakeCase"}, {"field_case": "mixedCase", "class_case": "snakeCase"},
+    ]
+    for h in hand:
+        for o in matrix:
+            yield {**h, "opts": dict(o)}
+    n = 300 if tier == "quick" else 4000
     tnss = [None, None, "urn:x", "http://www.example.com/class/1", "http://1.2/3", "urn:await"]
     for _ in range(n):
         opts = {
@@ -1175,6 +1298,9 @@ def gen_pipeline(rng, tier):
             "wrapper": rng.random() < 0.2,
             "unnest": rng.random() < 0.3,
         }
+        for k, pr in (("frozen", 0.25), ("slots", 0.25), ("relative_imports", 0.3), ("generic_collections", 0.25)):
+            if rng.random() < pr:
+                opts[k] = True
         if rng.random() < 0.3:
             opts["field_case"] = rng.choice(CASES)
         if rng.random() < 0.3:
@@ -1229,6 +1355,45 @@ def adapt_pipeline(op, a):
     return {"kind": "xsd", "spec": spec, "opts": {}}
 
 
+_E2E_CACHE = {}
+
+
+def _e2e_msg(a):
+    k = json.dumps(a, sort_keys=True, ensure_ascii=False)
+    if k not in _E2E_CACHE:
+        if len(_E2E_CACHE) > 5000:
+            _E2E_CACHE.clear()
+        _E2E_CACHE[k] = oracle_pipeline(a)
+    return _E2E_CACHE[k]
+
+
+def impl_e2e(a):
+    msg = _e2e_msg(a)
+    return ok("importable") if msg is None else {"err": msg[:200]}
+
+
+def spec_e2e(a):
+    """The property itself: whatever the source and the options, generation ends, the package imports,
+    every class binds and instantiates — except on inputs inside a listed finding (identified by the
+    `covered` predicate: the documented algorithm misbehaves there in the same way)."""
+    msg = _e2e_msg(a)
+    if msg is not None:
+        fid = covered_pipeline(a, msg)
+        if fid:
+            return {"unspecified": fid}
+    return ok("importable")
+
+
+def gen_e2e(rng, tier):
+    yield from gen_pipeline(rng, tier)
+
+
+def classify_e2e(a, o):
+    if "err" in o:
+        return a["kind"] + ":" + (covered_pipeline(a, o["err"]) or "FAIL")
+    return a["kind"] + ":importable"
+
+
 def adapt_ident(op, a):
     if op == "names.filter":
         return a
@@ -1245,13 +1410,15 @@ ORACLES = [
     Oracle("c07.pipeline", gen_pipeline, oracle_pipeline, covered_pipeline, from_ops=("names.e2e_fields",), adapt=adapt_pipeline),
 ]
 
+CORRS.append(
+    Corr("c07.e2e", gen_e2e, impl_e2e, spec=spec_e2e, classify=classify_e2e,
+         describe="spec-level: hostile XSD / JSON / XML sample x structure style x compound/wrapper/unnest x frozen/slots x "
+                  "relative imports x generic collections x field/class case -> REAL generation (stand-in for the Jinja2 templates) -> "
+                  "files compile, no duplicate members/classes, package imports, build_recursive + instantiation of every class; "
+                  "expected: importable (unspecified inside listed findings)")
+)
+
 # ----------------------------------------------------------------- findings
-
-
-def _f_await():
-    out = F().field_name("await", "c"), F().module_name("await")
-    bad = [o for o in out if keyword.iskeyword(o)]
-    return bool(bad), f"field_name('await')={out[0]!r}, module_name('await')={out[1]!r}"
 
 
 def _f_preference():
@@ -1308,7 +1475,6 @@ def _f_abstract():
 
 
 FINDINGS = {
-    "C07-await-not-reserved": _f_await,
     "C07-preference-rename-unchecked": _f_preference,
     "C07-original-case-non-xid": _f_original,
     "C07-safe-prefix-collision": _f_prefix_collision,
